@@ -49,6 +49,15 @@ pub fn case(i: u64, seed: u64) -> Scenario {
         // the peer that is to fall behind skips |lead| ticks
         sc.ops.push(Op::Pause { tick: pause_tick, node: if lead > 0 { 1 } else { 0 }, ticks: lead.unsigned_abs() });
     }
+    if mix(seed ^ 0x10c5, i) % 3 == 0 {
+        // one isolated loss of a QualityReport or QualityReply well before the lead changes: the exchange must
+        // simply go on 200 ms later
+        let r = mix(seed ^ 0x10c6, i);
+        let (from, to) = if r % 2 == 0 { (peer_addr(0), peer_addr(1)) } else { (peer_addr(1), peer_addr(0)) };
+        let class = if (r >> 1) % 2 == 0 { crate::sim::wire::Class::QualityReport } else { crate::sim::wire::Class::QualityReply } as u8;
+        sc.ops.push(Op::DropNext { tick: pause_tick.saturating_sub(14 + ((r >> 8) % 12) as u32), from, to, class });
+        sc.ops.sort_by_key(|o| o.tick());
+    }
     sc.ticks = pause_tick + 60 + 400 + 200 * 1000 / (fm * 1000) ;
     sc.ticks = pause_tick + 60 + 400 + (1200 / fm);
     sc.settle = 0;
